@@ -57,9 +57,10 @@ func (r RouterJSR311) ExtractParameters(route *Route, webService *WebService, ur
 
 func (RouterJSR311) extractParams(pathExpr *pathExpression, matches []string) map[string]string {
 	params := map[string]string{}
-	for i := 1; i < len(matches); i++ {
-		if len(pathExpr.VarNames) >= i {
-			params[pathExpr.VarNames[i-1]] = matches[i]
+	for i, name := range pathExpr.VarNames {
+		// the expression of an earlier variable can have capturing groups of its own
+		if group := pathExpr.varGroups[i]; group < len(matches) {
+			params[name] = matches[group]
 		}
 	}
 	return params
